@@ -652,7 +652,9 @@ impl<'a> Evaluator<'a> {
                                     break;
                                 }
                                 let j = match rest[i..].find('}') { Some(j) => i + j, None => { ok = false; break } };
-                                let inner = &rest[i + 1..j];
+                                let inner_full = &rest[i + 1..j];
+                                // `{name:spec}` / `{:spec}`: fill, alignment and width (literal or `var$`) are honoured
+                                let (inner, spec) = match inner_full.split_once(':') { Some((a, b)) => (a, Some(b)), None => (inner_full, None) };
                                 let v = if inner.is_empty() {
                                     let r = args.get(pos).map(|a| self.eval(a, _env));
                                     pos += 1;
@@ -660,12 +662,38 @@ impl<'a> Evaluator<'a> {
                                 } else if inner.chars().all(|c| c.is_alphanumeric() || c == '_') {
                                     match _env.get(inner) { Some(v) => v.clone(), None => { ok = false; break } }
                                 } else { ok = false; break };
-                                match v {
-                                    Val::Str(s) | Val::Sym(s) => out.push_str(&s),
-                                    Val::Int { v, .. } => out.push_str(&v.to_string()),
-                                    Val::Char(c) => out.push(c),
+                                let mut text = match v {
+                                    Val::Str(s) | Val::Sym(s) => s,
+                                    Val::Int { v, .. } => v.to_string(),
+                                    Val::Char(c) => c.to_string(),
                                     _ => { ok = false; break }
+                                };
+                                if let Some(spec) = spec {
+                                    if spec == "?" || spec == "#?" {
+                                        text = format!("{:?}", text);
+                                    } else {
+                                        // [[fill]align][width]
+                                        let chars: Vec<char> = spec.chars().collect();
+                                        let (fill, align, restspec): (char, char, String) = if chars.len() >= 2 && ['<', '>', '^'].contains(&chars[1]) {
+                                            (chars[0], chars[1], chars[2..].iter().collect())
+                                        } else if !chars.is_empty() && ['<', '>', '^'].contains(&chars[0]) {
+                                            (' ', chars[0], chars[1..].iter().collect())
+                                        } else {
+                                            (' ', '<', spec.to_string())
+                                        };
+                                        let width: Option<usize> = if let Some(var) = restspec.strip_suffix('$') {
+                                            match _env.get(var) { Some(Val::Int { v, .. }) => Some(*v as usize), _ => { ok = false; break } }
+                                        } else if restspec.is_empty() { None } else { match restspec.parse::<usize>() { Ok(w) => Some(w), Err(_) => { ok = false; break } } };
+                                        if let Some(w) = width {
+                                            let len = text.chars().count();
+                                            if len < w {
+                                                let pad: String = std::iter::repeat(fill).take(w - len).collect();
+                                                text = match align { '>' => format!("{}{}", pad, text), '^' => { let l = (w - len) / 2; format!("{}{}{}", pad.chars().take(l).collect::<String>(), text, pad.chars().skip(l).collect::<String>()) } _ => format!("{}{}", text, pad) };
+                                            }
+                                        }
+                                    }
                                 }
+                                out.push_str(&text);
                                 rest = &rest[j + 1..];
                             }
                             if ok {
@@ -691,6 +719,31 @@ impl<'a> Evaluator<'a> {
                     }
                 }
                 Ok(Val::Sym(format!("{}!({})", name, crate::model::norm_tokens(&m.tokens.to_string()))))
+            }
+            // write!(f, ..) / writeln!(f, ..): the text is appended to the pseudo variable `$out`
+            "write" | "writeln" => {
+                let args = crate::model::macro_args(m).ok_or("cannot parse macro args")?;
+                if args.len() < 2 {
+                    return Err(format!("{}! without a format string", name));
+                }
+                let rest: Vec<&syn::Expr> = args.iter().skip(1).collect();
+                let fm = syn::Macro {
+                    path: syn::parse_quote!(format),
+                    bang_token: m.bang_token,
+                    delimiter: m.delimiter.clone(),
+                    tokens: quote::quote!(#(#rest),*),
+                };
+                let text = match self.eval_macro(&fm, _env)? {
+                    Val::Str(t) | Val::Sym(t) => t,
+                    o => return Err(format!("{}!: formatted to {}", name, o.show())),
+                };
+                let mut cur = match _env.get("$out") { Some(Val::Str(c)) => c.clone(), _ => String::new() };
+                cur.push_str(&text);
+                if name == "writeln" {
+                    cur.push('\n');
+                }
+                _env.insert("$out".into(), Val::Str(cur));
+                Ok(Val::Ctor("Ok".into(), vec![Val::Unit], BTreeMap::new()))
             }
             "unreachable" | "todo" | "unimplemented" | "panic" => Ok(Val::Sym(format!("{}!", name))),
             "matches" => {
@@ -840,6 +893,8 @@ impl<'a> Evaluator<'a> {
                     let nv = match (&l, &r, &b.op) {
                         (Val::Int { v: x, input: false }, Val::Int { v: y, input: false }, AddAssign(_)) => Val::int(x.checked_add(*y).ok_or("constant arithmetic overflow")?),
                         (Val::Int { v: x, input: false }, Val::Int { v: y, input: false }, SubAssign(_)) => Val::int(x.checked_sub(*y).ok_or("constant arithmetic overflow")?),
+                        (Val::Str(x), Val::Str(y), AddAssign(_)) => Val::Str(format!("{}{}", x, y)),
+                        (Val::Str(x), Val::Sym(y), AddAssign(_)) => Val::Str(format!("{}{}", x, y)),
                         (_, _, AddAssign(_)) => match (self.call_hook)(self, "op:add_assign", &[l.clone(), r.clone()]) {
                             Some(v) => v?,
                             None => return Err(format!("unsupported `+=` on {} , {}", l.show(), r.show())),
@@ -1666,6 +1721,10 @@ impl<'a> Evaluator<'a> {
                             return Ok(Val::List(st.match_indices(pat.as_str()).map(|(i, m)| if name == "matches" { Val::Str(m.to_string()) } else { Val::Tuple(vec![Val::int(i as i128), Val::Str(m.to_string())]) }).collect()));
                         }
                         "to_uppercase" => return Ok(Val::Str(st.to_uppercase())),
+                        "repeat" if mc.args.len() == 1 => match self.eval(&mc.args[0], env)? {
+                            Val::Int { v, .. } if (0..100_000).contains(&v) => return Ok(Val::Str(st.repeat(v as usize))),
+                            o => return Err(format!("repeat({})", o.show())),
+                        },
                         "to_lowercase" => return Ok(Val::Str(st.to_lowercase())),
                         "chars" => return Ok(Val::List(st.chars().map(Val::Char).collect())),
                         "replace" => {
@@ -1690,6 +1749,14 @@ impl<'a> Evaluator<'a> {
                     })),
                     "into" | "clone" | "to_owned" | "as_ref" | "as_deref" | "to_string" | "as_str" | "copied" | "cloned" | "borrow" | "as_mut" | "into_iter" | "iter" | "iter_mut" | "to_vec" => Ok(recv),
                     // index arithmetic (the receiver is treated as unsigned: a negative difference is None / 0)
+                    "checked_ilog10" | "ilog10" if matches!(recv, Val::Int { input: false, .. }) && mc.args.is_empty() => {
+                        let Val::Int { v, .. } = recv else { unreachable!() };
+                        if v <= 0 {
+                            return if name == "ilog10" { Err("ilog10 of a non-positive number (the code would panic here)".into()) } else { Ok(Val::none()) };
+                        }
+                        let l = (v as u128).ilog10() as i128;
+                        return Ok(if name == "ilog10" { Val::int(l) } else { Val::some(Val::int(l)) });
+                    }
                     "checked_sub" | "checked_add" | "saturating_sub" | "saturating_add" | "wrapping_add" if matches!(recv, Val::Int { input: false, .. }) && mc.args.len() == 1 => {
                         let e = self.eval(&mc.args[0], env)?;
                         match (&recv, e) {
